@@ -1010,6 +1010,139 @@ func (c *q06Case) opEnq(kind string, sender int, mev bool, ts int64) {
 	}
 }
 
+// opEnqValset enqueues a validator-set update the way the chain does: the real
+// EvmKeeper.PublishValsetToChain (relayer pick, removal of every older update of the queue, put with
+// RequireGasEstimation).  One Go call, several op lines: a failed pick changes nothing (`enq v … → fail`);
+// otherwise one `rm` line per removed older update (queue order) and then the `enq v` line.
+func (c *q06Case) opEnqValset(ts int64) {
+	c.content++
+	m, _ := c.action("v", c.content, 0, false)
+	ctx := c.ctx.WithBlockTime(time.Unix(ts, 0).UTC())
+	ci, err := c.fx.fa.App().EvmKeeper.GetChainInfo(ctx, q06Chain)
+	if err != nil {
+		c.fx.t.Fatalf("chain info: %v", err)
+	}
+	before := c.msgs()
+	func() {
+		defer func() {
+			if p := recover(); p != nil {
+				err = fmt.Errorf("panic %v", p)
+			}
+		}()
+		err = c.fx.fa.App().EvmKeeper.PublishValsetToChain(ctx, *m.GetUpdateValset().Valset, ci)
+	}()
+	after := c.msgs()
+	line := fmt.Sprintf("enq v %d 0 0 %d", c.content, ts)
+	if err != nil {
+		c.op(line, "fail")
+		c.r.Stat("enqv.fail")
+		if len(after) != len(before) {
+			c.hit("failed_request_enqueues_nothing", "valset publication failed but the queue changed")
+		}
+		return
+	}
+	left := map[uint64]bool{}
+	var newID uint64
+	for _, a := range after {
+		left[a.GetId()] = true
+		if a.GetId() > newID {
+			newID = a.GetId()
+		}
+	}
+	was := map[uint64]bool{}
+	for _, b := range before {
+		was[b.GetId()] = true
+		if !left[b.GetId()] {
+			if q06Kind(c.evm(b)) != "v" {
+				c.hit("valset_publication_removes_only_updates", fmt.Sprintf("msg %d removed by a valset publication", b.GetId()))
+			}
+			c.op(fmt.Sprintf("rm %d", b.GetId()), "ok -")
+			c.r.Stat("enqv.removed_older")
+		}
+	}
+	if was[newID] || newID == 0 {
+		c.fx.t.Fatalf("valset publication succeeded without a new message")
+	}
+	c.r.Stat("enqv.ok")
+	c.ids = append(c.ids, newID)
+	c.mevOf[newID] = false
+	c.changed = true
+	c.op(line, fmt.Sprintf("%d %s", newID, c.showID(newID)))
+	em := c.evm(c.msg(newID))
+	aid := c.fx.idOfValStr(em.Assignee)
+	ok, remotes := c.eligible(aid, false)
+	if !ok {
+		c.hit("assignee_eligible", fmt.Sprintf("valset update %d assigned to %d which is not in the snapshot with chain account, fee and metrics", newID, aid))
+	} else {
+		found := false
+		for _, a := range remotes {
+			if c.fx.addrStr[a] == em.AssigneeRemoteAddress {
+				found = true
+			}
+		}
+		if !found {
+			c.hit("remote_is_snapshot_account", fmt.Sprintf("valset update %d: relayer address %s is not an account of assignee %d in the snapshot", newID, em.AssigneeRemoteAddress, aid))
+		}
+	}
+	if !c.msg(newID).GetRequireGasEstimation() {
+		c.hit("valset_update_requires_estimation", fmt.Sprintf("valset update %d enqueued without RequireGasEstimation", newID))
+	}
+}
+
+// q14ValsetEnqueue: validator-set updates through the producer of /repo (relayer pick + estimation
+// required), under random environments: assignment clause, "offered only once elected", older updates
+// replaced.  Appended after everything else so that the random stream of the earlier cases is unchanged.
+func q14ValsetEnqueue(t *testing.T, r *Rec, fx *q06Fix) {
+	n := r.N / 15
+	if n < 8 {
+		n = 8
+	}
+	for i := 0; i < n; i++ {
+		i := i
+		fx.hookCase(func(ctx sdk.Context) {
+			env := r.q06GenEnv(fx, fx.n)
+			if i%3 == 0 {
+				env = q06PlainEnv(fx)
+			}
+			if err := fx.writeEnv(ctx, env); err != nil {
+				t.Fatal(err)
+			}
+			c := fx.begin(ctx, r)
+			c.obs = fx.emitEnv(ctx, r)
+			c.syncRegs()
+			rg := r.Rng
+			if rg.Intn(2) == 0 {
+				c.opEnq("s", rg.Intn(len(fx.senders)), false, int64(rg.Intn(7)))
+			}
+			if rg.Intn(3) == 0 {
+				c.opPut("v", 0, fx.valID[rg.Intn(fx.n)], 4*(1+rg.Intn(fx.n)), rg.Intn(2) == 0)
+			}
+			c.opEnqValset(int64(rg.Intn(12)))
+			c.track()
+			c.opRelay()
+			if rg.Intn(2) == 0 {
+				c.opEnq("u", rg.Intn(len(fx.senders)), false, int64(rg.Intn(7)))
+				c.opEnqValset(int64(rg.Intn(12))) // replaces the first update
+				c.track()
+				c.opRelay()
+			}
+			if len(c.ids) > 0 {
+				id := c.ids[len(c.ids)-1]
+				for j := 0; j < fx.n; j++ {
+					c.opEst(id, j, 50000)
+				}
+				c.track()
+				c.opRelay() // not offered before the election
+				c.opEndBlock()
+				c.track()
+				c.opRelay()
+			}
+			r.Case(fmt.Sprintf("valset-enqueue|%d|%d", i, len(c.log)), len(c.ids) > 0)
+			r.Stat("case.valset_enqueue")
+		})
+	}
+}
+
 func (c *q06Case) opPick(mev bool, ts int64) {
 	ctx := c.ctx.WithBlockTime(time.Unix(ts, 0).UTC())
 	v, remote, err := q06PickReal(c.fx, ctx, mev)
@@ -1317,6 +1450,11 @@ func (c *q06Case) opRelay() {
 			}
 			if (in.kind == "s" || in.kind == "u") && in.sender != 0 {
 				for _, o := range infos[:ix] {
+					if (o.kind == "s" || o.kind == "u") && o.sender == in.sender && o.reported {
+						// READING recorded in Props/C14 (reported_older_message_does_not_block): an older message of the
+						// same sender that is still queued but already reported does not hold the younger one back
+						c.r.Stat("observed:reported-older-same-sender-does-not-block")
+					}
 					if (o.kind == "s" || o.kind == "u") && o.sender == in.sender && !o.reported {
 						if in.kind == "s" && o.kind == "s" {
 							c.hit("one_per_sender", fmt.Sprintf("msg %d offered while older msg %d of sender %d is pending", in.id, o.id, in.sender))
@@ -2048,6 +2186,7 @@ func q06RunTest(t *testing.T, prop string) {
 	} else {
 		q14Directed(t, r, fx)
 	}
+	q14ValsetEnqueue(t, r, fx)
 }
 
 func TestC06(t *testing.T) { q06RunTest(t, "C06") }
